@@ -68,6 +68,23 @@ def show(ty, P):
 SCALARS = [0, 1, 2, 3, 4, 5, 7, 8, R - 1, R - 2, R - 3, (R + 1) // 2, (R - 1) // 2, 1 << 64, (1 << 64) - 1, 1 << 128, 1 << 255 % R,
            (1 << 255) % R, 0xAAAAAAAAAAAAAAAAAAAAAAAAAAAAAAAAAAAAAAAAAAAAAAAAAAAAAAAAAAAAAAAA % R, (1 << 200) - 1]
 
+def canon_jac(ty, J):
+    """canonical (value) bytes x||y||z for the public-API driver functions"""
+    def cb(v):
+        if ty == 'Fq':
+            return S.be(v)
+        return S.be(v[2][0]) + S.be(v[2][1])
+    return b''.join(cb(c) for c in J)
+
+def dec_canon(ty, b):
+    l = len(b) // 3
+    def dv(x):
+        if ty == 'Fq':
+            return int.from_bytes(x, 'big')
+        return mk('Fq2', [int.from_bytes(x[:32], 'big'), int.from_bytes(x[32:], 'big')])
+    X, Y, Z = [dv(b[i * l:(i + 1) * l]) for i in range(3)]
+    return S.affine(ty, X, Y, Z)
+
 def search(drv, seed, tier='quick'):
     """returns (list of per-op stats, list of violations)"""
     rnd = random.Random(seed * 7919 + 17)
@@ -118,7 +135,8 @@ def search(drv, seed, tier='quick'):
                 push('to_affine', gname + '::to_affine', [G.enc(JI)], ('aff', None))
                 push('is_zero', gname + '::is_zero', [G.enc(JI)], ('bool', True))
         # scalar multiplication
-        nsc = SCALARS + [rnd.randrange(R) for _ in range(4 if tier == 'quick' else 40)]
+        Rinv_ = pow(S.RR, -1, R)
+        nsc = SCALARS + [Rinv_, 2 * Rinv_ % R, (R - 1) * Rinv_ % R, (1 << 64) * Rinv_ % R] + [rnd.randrange(R) for _ in range(4 if tier == 'quick' else 40)]
         for P in pts[:2] if tier == 'quick' else pts[:4]:
             for lp, JP in G.reps(P, rnd)[:2]:
                 for k in nsc:
@@ -127,6 +145,43 @@ def search(drv, seed, tier='quick'):
         for li, JI in G.reps(None, rnd):
             for k in (0, 1, 5, R - 1):
                 push('mul', gname + '::mul', [G.enc(JI), S.be(S.mont(k, R))], None)
+        # the lib.rs wrappers (operator impls of G1 / G2, scalar on either side, normalize) through the public API
+        Rinv = pow(S.RR, -1, R)
+        wsc = [0, 1, 2, R - 1, Rinv, 2 * Rinv % R, (R - 1) * Rinv % R, (1 << 64) * Rinv % R, (1 << 64), (1 << 128) + 5, rnd.randrange(R)]
+        wreqs = []
+        for P in pts[:3]:
+            for lp, JP in G.reps(P, rnd)[:2] + G.reps(None, rnd)[:2]:
+                Pa = P if lp in ('aff', 'jac', 'jac_m1') else None
+                for Qp in (pts[3 % len(pts)], P, C.neg(P), None):
+                    JQ = G.reps(Qp, rnd)[1]
+                    for k in wsc[:4] + [rnd.choice(wsc)]:
+                        wreqs.append((Pa, Qp, k, [canon_jac(ty, JP), canon_jac(ty, JQ[1]), S.be(k)]))
+            for k in wsc:
+                JP = G.reps(P, rnd)[1][1]
+                wreqs.append((P, P, k, [canon_jac(ty, JP), canon_jac(ty, JP), S.be(k)]))
+        wres = drv.batch([('pub::%s_wrap_ops' % gname, a) for _, _, _, a in wreqs])
+        for (Pa, Qp, k, a), r in zip(wreqs, wres):
+            count(gname + '::wrappers')
+            fn = 'pub::%s_wrap_ops' % gname
+            if r[0] != 'ok':
+                viols.append(viol('lib::%s_wrappers' % gname, fn, a, 'results', ' '.join(r), 'panic-or-unknown'))
+                continue
+            o = r[1]
+            exp = [C.add(Pa, Qp), C.add(Pa, C.neg(Qp)), C.neg(Pa), C.mul(k, Pa), C.mul(k, Pa), Pa]
+            names = ['add', 'sub', 'neg', 'mul', 'scalar*point', 'normalize']
+            for nm, e, got in zip(names, exp, o[:6]):
+                g_ = dec_canon(ty, got)
+                if g_ != e:
+                    viols.append(viol('lib::%s_%s' % (gname, nm), fn, a, show(ty, e), show(ty, g_), nm))
+            if Pa is not None:
+                zb = got[2 * (len(got) // 3):] if False else o[5][2 * (len(o[5]) // 3):]
+                one = S.be(1) if ty == 'Fq' else S.be(1) + S.be(0)
+                if zb != one:
+                    viols.append(viol('lib::%s_normalize' % gname, fn, a, 'z = 1', zb.hex(), 'normalize-z'))
+            if bool(o[6][0]) != (Pa is None):
+                viols.append(viol('lib::%s_is_zero' % gname, fn, a, str(Pa is None), str(bool(o[6][0])), 'is_zero'))
+            if bool(o[7][0]) != (Pa == Qp):
+                viols.append(viol('lib::%s_eq' % gname, fn, a, str(Pa == Qp), str(bool(o[7][0])), 'eq'))
         # validated construction
         for P in pts:
             push('affine_new', gname + '::affine_new', [S.tw_enc(ty, P[0]), S.tw_enc(ty, P[1])], ('new', True))
